@@ -89,6 +89,16 @@ class Runner:
             act = lk.sol_list[-1]
             if b not in act.structures or (b, Pin(f"a{tag}x")) not in act.connections_list:
                 self.misdirected = True
+            # ... and a placement whose connection is REFUSED (the target pin is taken by now): the error is caught and the
+            # program goes on — the stack of active solvers must be what it was
+            depth0 = list(lk.sol_list)
+            try:
+                uwg(f"{tag}y").put(f"a{tag}y", (a, f"b{tag}"))
+                self.misdirected = True
+            except Exception:
+                pass
+            if list(lk.sol_list) != depth0:
+                self.misdirected = True
         elif name == "put" and tag % 3 == 2:
             # Solver.put with a source pin given by NAME and a target
             sub = lk.Solver(name=f"psub{tag}")
